@@ -288,7 +288,7 @@ Section GrowLazy.
       - intros lf [].
       - constructor.
       - intros lf h []. }
-    destruct (build_grow fn rtl _ _ _ _ _ _ _ _ _ H0 Hb) as [(_ & _ & Gv & _ & Gobs) Ttree].
+    destruct (build_grow fn rtl _ _ _ _ _ _ _ _ _ H0 Hb) as [(_ & _ & Gv & _ & Gobs & _) Ttree].
     pose proof (build_basic _ _ _ _ _ _ _ _ _ H0 Hb) as BG. pose proof BG as (B1 & B2 & B3 & B4 & B5).
     set (nb := {| b_root := root; b_evp := ev'; b_regid := S (ep_next st); b_target := None; b_alive := true |}) in *.
     match type of Hinv3 with pinv ?W => set (w3 := W) in * end.
